@@ -234,6 +234,27 @@ def explore(job: dict) -> dict:
     @st.composite
     def case(draw: Any) -> dict:
         h = draw(history(max_len=100, synthetic=False))  # the statement quantifies over histories derived from the real logs
+        if draw(st.booleans()):
+            # the controller also answers others (an RFG100, a thermostat, the DHW sensor): copies of some of its RPs, addressed to another
+            # device of the history (or a 30: gateway), are inserted EARLIER - the same code / context then lives in two devices' stores
+            fr = h["frames"]
+            # addressees that really poll a controller: an RFG100 (30:, asks for everything) and - for 10A0 only - the DHW sensor (07:);
+            # (a reply to a device whose class never receives that code is dropped by the dispatcher once the class is known: not a state
+            # real traffic leads to)
+            # ... and thermostats (000A / 2309 / 2349), as the library's own device-class tables say (CODES_BY_DEV_SLUG: codes a class sends RQs for)
+            dhws = sorted({f[7:16] for f in fr if f[7:9] == "07"})[:2]
+            thms = sorted({f[7:16] for f in fr if f[7:9] in ("34", "22", "12")})[:3]
+            rps = [k for k, f in enumerate(fr) if f[:2] == "RP" and f[7:9] == "01" and f[17:19] == "18"]
+            for _ in range(draw(st.integers(1, 4)) if rps else 0):
+                k = draw(st.sampled_from(rps))
+                other = draw(st.sampled_from(["30:059927"] + (dhws * 2 if fr[k][37:41] == "10A0" else []) + (thms * 2 if fr[k][37:41] in ("000A", "2309", "2349") else [])))
+                pl = fr[k][46:]
+                # an older reading in the copy (same context bytes) - only for codes whose last byte is part of a measured / set value
+                if draw(st.booleans()) and len(pl) >= 6 and fr[k][37:41] in ("30C9", "2309", "1260", "10A0", "12B0", "3150"):
+                    pl = pl[:-1] + ("1" if pl[-1] != "1" else "2")
+                fr.insert(draw(st.integers(0, k)), fr[k][:17] + other + fr[k][26:46] + pl)
+                rps = [x + 1 if x >= 0 else x for x in rps]
+            h["mutations"] = list(h["mutations"]) + ["readdressed-replies"]
         n = len(h["frames"])
         return {"frames": h["frames"], "system": h["system"], "mutations": h["mutations"], "eavesdrop": draw(st.integers(0, 2)) == 0,
                 "include_expired": draw(st.booleans()), "gap": draw(st.sampled_from((0.02, 0.5, 5.0))),
